@@ -90,6 +90,17 @@ def gen_cases(tier, seed):
         dupsrc = pol in ("none", "cfr-short") and not deref and r.random() < 0.25
         yield {"dupsrc": dupsrc, "mount": mount, "vanish": vanish, "onecpu": onecpu, "deref": deref, "spec": spec, "driver": driver, "updater": upd, "mode": mode, "bs": bs, "workers": 0 if onecpu or r.random() < 0.05 else r.choice([1, 2, 4, 8]), "policy": pol, "rules": rules,
                "plan": sch, "fs": "ext4"}
+    # every worker is made to give up early (as many operations that fail by themselves as there are workers: FIFOs whose destination
+    # names are non-empty directories), with hundreds of entries still to come: the call has to return and the stream to end
+    for i in range(8 if tier == "quick" else 60):
+        driver = ["parfile", "parblock"][i % 2]
+        w = [1, 2, 4, 3][(i // 2) % 4]
+        spec = [{"p": "src", "k": "d"}, {"p": "dst", "k": "d"}, {"p": "dst/src", "k": "d"}]
+        for k in range(w + 1):
+            spec += [{"p": "src/a%d" % k, "k": "fifo"}, {"p": "dst/src/a%d" % k, "k": "d"}, {"p": "dst/src/a%d/x" % k, "k": "f", "size": 1, "seed": 5, "segs": None}]
+        spec += [{"p": "src/z%04d" % k, "k": "f", "size": r.choice([0, 10, 300]), "seed": r.randrange(1, 1 << 30), "segs": None} for k in range(r.choice([300, 700]))]
+        yield {"dupsrc": False, "mount": None, "vanish": None, "onecpu": False, "deref": False, "spec": spec, "driver": driver, "updater": ["noop", "record", "channel"][i % 3], "mode": r.choice(["live", "after"]),
+               "bs": 4096, "workers": w, "policy": "workers-all-fail", "rules": [], "plan": {"sched": r.choice(["free", "lifo"]), "sched_seed": r.randrange(1 << 30)}, "fs": "ext4", "predst": True}
 
 
 def _deref_total(top):
@@ -207,6 +218,11 @@ def _run_case_body(case, sb, res):
         if case.get("onecpu"):
             argv = ["taskset", "-c", "2"] + argv      # a process that may use a single CPU (container / affinity mask); workers = 0 then means 'one'
         run = core.run_supervised(sb, argv, plan)
+        if run.verdict == "deadlock":
+            # (every thread blocked in a call without a timeout, nothing moving: not a matter of patience)
+            res["viol"].append({"sig": "%s:%s:never-ends" % (case["driver"], case["updater"]), "what": "copy() never returned and the stream never ended: %s; %s/%s/%s w=%d policy=%s"
+                                % (run.summary.get("detail", "")[:300], case["driver"], case["updater"], case["mode"], case["workers"], case["policy"])})
+            return res
         if run.verdict != "exited":
             res["inconc"].append("run-" + run.verdict)
             return res
